@@ -39,7 +39,7 @@ def rule(tier):
 def floors(tier):
     return {"evaluations": 6000, "distinct": 5000,
             "counters": {"corpus_archives": 5000, "roundtrip_identical": 5000, "rechunk_cases": 1500 if tier == "quick" else 15000,
-                         "multi_chunk_streams": 50, "stored_chunks_decoded": 200, "synthetic_archives": 60, "synthetic_incompressible_64k": 20, "payload_over_65535": 5, "generated_doc_archives": 300,
+                         "multi_chunk_streams": 50, "stored_chunks_decoded": 200, "synthetic_archives": 60, "synthetic_incompressible_64k": 20, "payload_over_65535": 5, "synthetic_exact_64k_multiple": 6, "generated_doc_archives": 300,
                          "contract:iwa_encode": 5000, "contract:iwa_decode": 5000}}
 
 
@@ -299,6 +299,42 @@ def synth(total, nseg, rng, multi=False, unknown=False, entropy=False):
     return iwa.build(segs)
 
 
+def synth_exact(total, rng, nseg=1):
+    """A plaintext of *exactly* `total` bytes (the 64 KiB rule bites at exact multiples)."""
+    from numbers_parser.generated import TSTArchives_pb2 as TST
+    from numbers_parser.generated.mapping import NAME_ID_MAP
+    from numbers_parser.generated.TSPArchiveMessages_pb2 import ArchiveInfo
+    from vf.ref import iwa
+
+    def build(n_last, extra):
+        segs = []
+        for i in range(nseg):
+            dl = TST.TableDataList(listType=TST.TableDataList.ListType.STRING, nextListID=1)
+            if i < nseg - 1:
+                dl.entries.add(key=1, refcount=1, string="seg%d" % i * 3)
+            else:
+                dl.entries.add(key=1, refcount=1, string="x" * n_last)
+                for j in range(extra):
+                    dl.entries.add(key=2 + j, refcount=1, string="")
+            m = dl.SerializeToString()
+            ai = ArchiveInfo(identifier=2000 + i)
+            mi = ai.message_infos.add()
+            mi.type = NAME_ID_MAP["TST.TableDataList"]
+            mi.version.extend([1, 0, 5])
+            mi.length = len(m)
+            segs.append((ai, [m]))
+        return iwa.build(segs)
+    for extra in range(0, 6):
+        n = max(0, total - 64)
+        for _ in range(40):
+            p = build(n, extra)
+            d = total - len(p)
+            if d == 0:
+                return p
+            n = max(0, n + d)
+    return None
+
+
 SYN_SIZES = [0, 1, 50, 65535, 65536, 65537, 131071, 131072, 131073, 200000, 1 << 20, 2 << 20]
 
 
@@ -335,6 +371,20 @@ def run_synthetic(spec, rec):
         check_stream(b, rec, f"synthetic:{total}/{nseg}/{int(multi)}/{int(unknown)}/{int(entropy)}",
                      {"part": "synthetic", "total": total, "nseg": nseg, "multi": multi, "unknown": unknown, "entropy": entropy, "seed": spec["seed"], "stream": spec["stream"]},
                      rechunk=rc, rng=rng)
+    # exact sizes around the 64 KiB multiples (only stream 0..2: one multiple each)
+    if spec["stream"] < 3:
+        k = spec["stream"] + 1
+        for total in (65536 * k - 1, 65536 * k, 65536 * k + 1):
+            for nseg in (1, 3):
+                p = synth_exact(total, rng, nseg)
+                if p is None:
+                    rec.build_failure("synth_exact")
+                    continue
+                b, _ = iwa.frame(p)
+                rec.count("synthetic_archives")
+                if total % 65536 == 0:
+                    rec.count("synthetic_exact_64k_multiple")
+                check_stream(b, rec, f"synthetic-exact:{total}/{nseg}", {"part": "synthetic-exact", "total": total, "nseg": nseg}, rechunk=3, rng=rng)
     rec.sample({"synthetic": [list(c) for c in mine[:5]]})
 
 
@@ -371,6 +421,10 @@ def replay(case, rec):
                     _replay_cuts(b, case, rec)
                 else:
                     check_stream(b, rec, "replay:" + name, case, rechunk=5, rng=rng)
+    elif part == "synthetic-exact":
+        p = synth_exact(case["total"], rng, case["nseg"])
+        b, _ = iwa.frame(p)
+        check_stream(b, rec, "replay:synthetic-exact", case, rechunk=3, rng=rng)
     elif part == "synthetic":
         if case.get("total", 1) == 0:
             run_synthetic({"seed": 0, "stream": 0, "tier": "quick", "rechunk": 0}, rec)
